@@ -286,6 +286,12 @@ func (r *replicator) processHash(ctx context.Context, item processItem) ([]cid.C
 		return nil, fmt.Errorf("unable to fetch log: %w", err)
 	}
 
+	// the fetcher swallows read errors and cancellations and returns an empty log: the requested
+	// hash is not excluded (it is being fetched), so an empty result means the fetch failed
+	if l.Len() == 0 {
+		return nil, fmt.Errorf("unable to fetch log: entry %s was not fetched", hash)
+	}
+
 	r.muBuffer.Lock()
 	r.buffer = append(r.buffer, l)
 	r.muBuffer.Unlock()
